@@ -2679,6 +2679,7 @@ impl DcpsDomainParticipant {
                 data_writer
                     .matched_subscription_list
                     .retain(|subscription| subscription.key.value[..12] != prefix);
+                data_writer.notify_if_all_acknowledged();
             }
         }
 
